@@ -13,6 +13,8 @@ pub fn run(prop: &str, sk: &Skeleton) -> Leaf {
     match prop {
         "C01" | "C02" | "C03" | "C05" => matching::run(prop, sk),
         "C04" => report::c04(sk),
+        "C07dates" => report::c07_dates(sk),
+        "C07mcp" => report::c07_mcp(sk),
         "C07" => report::c07(sk),
         "C06" => relational::c06(sk),
         "C09" => relational::c09(sk),
